@@ -360,9 +360,11 @@ impl MemoryFsImpl {
     fn ensure_has_parent(&self, path: &str) -> VfsResult<()> {
         let separator = path.rfind('/');
         if let Some(index) = separator {
-            if self.files.contains_key(&path[..index]) {
-                return Ok(());
-            }
+            return match self.files.get(&path[..index]) {
+                Some(parent) if parent.file_type == VfsFileType::Directory => Ok(()),
+                Some(_) => Err(VfsErrorKind::Other("Parent path is not a directory".into()).into()),
+                None => Err(VfsErrorKind::Other("Parent path does not exist".into()).into()),
+            };
         }
         Err(VfsErrorKind::Other("Parent path does not exist".into()).into())
     }
